@@ -24,7 +24,7 @@ struct Pool {
 /// One symbolic operation on the pool. Every branch keeps `live` = number of non-empty handles.
 fn step(p: &mut Pool, base: &Arc<Pay>, v: u32) {
     let op: u8 = nd::any();
-    nd::assume(op < 11);
+    nd::assume(op < 12);
     nd::cover!(op == 10 && p.s0.as_ref().is_none() && p.s1.as_ref().is_some(), "clone_from an empty handle into a non-empty one");
     nd::cover!(op == 0 && p.s0.as_ref().is_some() && p.s1.as_ref().is_none(), "clone of a non-empty handle");
     nd::cover!(op == 0 && p.s0.as_ref().is_none(), "clone of an empty handle");
@@ -101,6 +101,12 @@ fn step(p: &mut Pool, base: &Arc<Pay>, v: u32) {
             assert!(Arc::strong_count(base) == 1 + p.live + n);
             drop(c);
         }
+        11 => {
+            // converting an already opaque handle again is the identity: same emptiness, count unchanged
+            let had = p.o.as_ref().is_some();
+            p.o = core::mem::take(&mut p.o).into_opaque();
+            assert!(p.o.as_ref().is_some() == had);
+        }
         10 => {
             // Clone::clone_from (whatever its implementation): the target releases what it held and becomes a copy
             if p.s1.as_ref().is_some() {
@@ -154,6 +160,25 @@ nd::harnesses! {
     #[kani::unwind(4)] fn c10_pool_k2() { pool_history::<2>() }
     #[kani::unwind(5)] fn c10_pool_k3() { pool_history::<3>() }
     #[kani::unwind(6)] fn c10_pool_k4() { pool_history::<4>() }
+
+    /// From a ZERO-SIZED value with a destructor: dropped exactly when the last handle goes.
+    #[kani::unwind(4)]
+    fn c10_zero_sized_value_with_destructor() {
+        static mut ZD_DROPS: u32 = 0;
+        struct Zd;
+        impl Drop for Zd {
+            fn drop(&mut self) {
+                unsafe { ZD_DROPS += 1 };
+            }
+        }
+        unsafe { ZD_DROPS = 0 };
+        let some_first: bool = nd::any();
+        let a: CArc<Zd> = if some_first { CArcSome::from(Zd).transpose() } else { CArc::from(Zd) };
+        let b = a.clone();
+        assert!(unsafe { ZD_DROPS } == 0 && a.as_ref().is_some() && b.as_ref().is_some());
+        if nd::any() { drop(a); assert!(unsafe { ZD_DROPS } == 0); drop(b); } else { drop(b); assert!(unsafe { ZD_DROPS } == 0); drop(a); }
+        assert!(unsafe { ZD_DROPS } == 1, "a zero-sized value is dropped once, with the last handle");
+    }
 
     /// From a value (no retained observer): the value is dropped exactly when the last of the
     /// handles derived by clone/take/transpose goes, in either drop order.
